@@ -449,11 +449,15 @@ class Engine:
             if isinstance(b, VSet):
                 if isinstance(a, VOpt):
                     raise Undecided("optional in set", line)
+                if not hasattr(a, "t") or not z3.is_expr(a.t) or a.t.sort() != b.arr.sort().domain():
+                    raise Undecided(f"`in` between {type(a).__name__} and a set of {b.shape}", line)
                 r = z3.Select(b.arr, a.t)
             elif isinstance(b, VSeq) and b.is_leaf(shape):
                 r = q_ex(1, lambda k: z3.And(0 <= k, k < b.len, z3.Select(b.arrs[()], k) == a.t))
             elif isinstance(b, VTuple):
                 r = z3.Or(*[val_eq(a, it) for it in b.items]) if b.items else z3.BoolVal(False)
+            elif isinstance(b, VDict):
+                r = z3.Select(b.has, a.t)
             else:
                 raise Undecided(f"`in` on {type(b).__name__}", line)
             return r if isinstance(op, ast.In) else z3.Not(r)
@@ -636,6 +640,9 @@ class Engine:
             return r
         if isinstance(base, VMap):
             return self.uf_call(f"lookup_{base.name}", [idxv], base.vshape)
+        if isinstance(base, VDict):
+            self.may_raise("KeyError", z3.Not(z3.Select(base.has, idxv.t)), pc, e.lineno, f"key:{ast.unparse(e)[:40]}")
+            return wrap_leaf(base.vshape, z3.Select(base.val, idxv.t))
         h = self.unit.subscripts.get(type(base).__name__)
         if h:
             return h(self, base, idxv, pc, e.lineno)
@@ -1178,6 +1185,10 @@ class Engine:
             h = self.unit.subscript_store.get(type(base).__name__)
             if h:
                 env[target.value.id] = h(self, base, self.ev(target.slice, env, pc), val, pc, line)
+                return
+            if isinstance(base, VDict) and hasattr(val, "t"):
+                key = self.ev(target.slice, env, pc)
+                env[target.value.id] = VDict(z3.Store(base.has, key.t, z3.BoolVal(True)), z3.Store(base.val, key.t, val.t), base.kshape, base.vshape)
                 return
             raise Undecided("subscript store", line)
         else:
